@@ -17,6 +17,7 @@ package scen
 //          checked with porcupine against the sequential set model.
 
 import (
+	"crypto/tls"
 	"fmt"
 	"hash/fnv"
 	"math/rand"
@@ -53,6 +54,26 @@ func init() {
 		Timeout: timeouts(6*time.Minute, 45*time.Minute),
 		Race:    false,
 		Run:     runC15})
+}
+
+// c15SNIEndpoint is an endpoint as Astra bundles produce them: every host sits behind the same SNI proxy address and is
+// told apart by its key only.
+type c15SNIEndpoint struct{ key string }
+
+func (e c15SNIEndpoint) String() string         { return "sni-proxy.invalid:29042:" + e.key }
+func (e c15SNIEndpoint) Addr() string           { return "sni-proxy.invalid:29042" }
+func (e c15SNIEndpoint) IsResolved() bool       { return false }
+func (e c15SNIEndpoint) TLSConfig() *tls.Config { return nil }
+func (e c15SNIEndpoint) Key() string            { return e.key }
+
+// c15UseSNIEndpoints rebuilds the host universe with SNI-proxy endpoints (same Addr, distinct Key).
+func c15UseSNIEndpoints() {
+	c15Index = map[string]int{}
+	for i := range c15Hosts {
+		key := fmt.Sprintf("sni-proxy.invalid:29042:host-id-%d", i+1)
+		c15Hosts[i] = &proxycore.Host{Endpoint: c15SNIEndpoint{key}, DC: "dc1"}
+		c15Index[key] = i
+	}
 }
 
 // ---------------------------------------------------------------------------------------------------------------------
@@ -1180,6 +1201,13 @@ func runC15(c *Ctx) {
 	if c.Replay != nil {
 		c15Replay(c, rep)
 		return
+	}
+	if c.Shard%2 == 1 {
+		// every other shard: hosts behind one SNI proxy address, told apart by their key only (Astra endpoints)
+		c15UseSNIEndpoints()
+		r.Obs("shards_with_sni_proxy_endpoints", 1)
+	} else {
+		r.Obs("shards_with_ip_endpoints", 1)
 	}
 	r.Require("seq_histories", "seq_fresh_plans", "seq_held_plans", "wrap_plans_checked", "conc_histories", "conc_plan_ops", "conc_histories_with_plan_held_across_event", "porcupine_selftest_ok", "porcupine:Ok", "e2e_plans_checked")
 
